@@ -160,6 +160,45 @@ fn can_then_enforce(
     Ok((can_b == Some(true), ok))
 }
 
+/// Ledgers that pass in an idle probe (the `IdleProbe` operation every world offers once per
+/// state: no call at all; on a throw-away copy of the state this many ledgers pass, then the
+/// installed configuration is read and exercised again). Beyond every temporary-entry lifetime and
+/// every TTL extension the policies and the smart account perform (SIMPLE_THRESHOLD_ /
+/// WEIGHTED_THRESHOLD_ / SPENDING_LIMIT_ / SMART_ACCOUNT_EXTEND_AMOUNT = 30 days = 518400
+/// ledgers), below the persistent TTL of `envx::mk_env` (3000000).
+const IDLE: u32 = 600_000;
+
+/// A disagreement found after the idle period: nothing was called in between, so whatever differs
+/// from the model was lost (or appeared) through the passage of time alone.
+fn idle_viol(v: Violation) -> Violation {
+    Violation::new("state-survives-idle", format!("after {IDLE} ledgers without any call [{}] {}", v.oracle, v.detail))
+}
+
+/// `can_enforce` and `enforce` (signed by `acct`) of `args` on the idle copy both answer `expect`.
+fn idle_enforce(e: &Env, policy: &Address, args: SVec<Val>, acct: &Address, expect: bool, what: &str) -> Result<(), Violation> {
+    let can = as_bool(e, &view(e, policy, "can_enforce", args.clone())) == Some(true);
+    ensure!(
+        can == expect,
+        "state-survives-idle",
+        "after {} ledgers without any call: can_enforce answers {} for {} (the configuration installed before the idle period says {})",
+        IDLE,
+        can,
+        what,
+        expect
+    );
+    let ok = call_signed(e, policy, "enforce", args, std::slice::from_ref(acct)).is_ok();
+    ensure!(
+        ok == expect,
+        "state-survives-idle",
+        "after {} ledgers without any call: enforce signed by the account {} for {} (the configuration installed before the idle period says {})",
+        IDLE,
+        if ok { "succeeds" } else { "fails" },
+        what,
+        if expect { "accept" } else { "refuse" }
+    );
+    Ok(())
+}
+
 // ------------------------------------------------------------------------------------------
 // World A: simple threshold (example contract)
 
@@ -172,6 +211,8 @@ enum SOp {
     Uninstall { slot: usize, by: By },
     /// can_enforce + enforce with the authenticated subset `mask` of the n-signer rule
     Enforce { slot: usize, n: u32, mask: u8, by: By },
+    /// see `IDLE`: thresholds of all tenants read and exercised after a long time without calls
+    IdleProbe,
 }
 
 struct Simple;
@@ -218,7 +259,38 @@ impl Simple {
                 let (acct, other, _) = i.slot(*slot);
                 call_signed(e, &i.c, "enforce", self.enf_args(i, *slot, *n, *mask), &signers_of(*by, &acct, &other)).is_ok()
             }
+            // not a call
+            SOp::IdleProbe => false,
         }
+    }
+
+    /// The idle probe on a throw-away copy of the state on which `IDLE` ledgers have passed:
+    /// thresholds are not time-dependent, so every tenant still reports the threshold of the
+    /// model; an installed tenant (threshold t) accepts exactly t authenticated signers of a
+    /// 4-signer rule and refuses t-1; a tenant without installation refuses all 4.
+    fn idle_check(&self, i: &SInst, m: &[Option<u32>; 3], cx: &mut StepCtx<Self>) -> Result<(), Violation> {
+        self.lockstep(i, m, cx).map_err(idle_viol)?;
+        let mut n = SLOTS.len() as u64;
+        for s in 0..SLOTS.len() {
+            let (acct, _, _) = i.slot(s);
+            let full = |k: u32| ((1u16 << k) - 1) as u8;
+            match m[s] {
+                Some(t) => {
+                    // (t in 1..=4: install / set_threshold accept nothing else)
+                    let t = t.min(4);
+                    idle_enforce(&i.e, &i.c, self.enf_args(i, s, 4, full(t - 1)), &acct, false, &format!("tenant {:?} with {} authenticated signers, threshold {}", SLOTS[s], t - 1, t))?;
+                    idle_enforce(&i.e, &i.c, self.enf_args(i, s, 4, full(t)), &acct, true, &format!("tenant {:?} with {} authenticated signers, threshold {}", SLOTS[s], t, t))?;
+                    n += 4;
+                }
+                None => {
+                    idle_enforce(&i.e, &i.c, self.enf_args(i, s, 4, full(4)), &acct, false, &format!("tenant {:?} with 4 authenticated signers, policy not installed", SLOTS[s]))?;
+                    n += 2;
+                }
+            }
+        }
+        cx.stats.count("idle-probes", 1);
+        cx.stats.count("getter-comparisons-after-long-idle", n);
+        Ok(())
     }
 
     fn enf_args(&self, i: &SInst, slot: usize, n: u32, mask: u8) -> SVec<Val> {
@@ -297,11 +369,13 @@ impl World for Simple {
                 }
             }
         }
+        v.push(SOp::IdleProbe);
         v
     }
 
     fn kind(&self, op: &SOp) -> String {
         match op {
+            SOp::IdleProbe => "idle-probe".into(),
             SOp::Install { n, t, by, .. } if *by == By::Acct && (*t == 0 || t > n) => "simple.install.zero-or-unreachable".into(),
             SOp::Install { by, .. } => format!("simple.install{}", by_tag(*by)),
             SOp::SetThreshold { n, t, by, .. } if *by == By::Acct && (*t == 0 || t > n) => {
@@ -323,6 +397,12 @@ impl World for Simple {
 
     fn step(&self, i: &mut SInst, m: &mut Self::Model, op: &SOp, cx: &mut StepCtx<Self>) -> Result<bool, Violation> {
         match op {
+            SOp::IdleProbe => {
+                let copy = cx.rebuild();
+                envx::advance(&copy.e, IDLE);
+                self.idle_check(&copy, m, cx)?;
+                Ok(false)
+            }
             SOp::Install { slot, n, t, by } | SOp::SetThreshold { slot, n, t, by } => {
                 let ok = self.exec(i, op);
                 if ok {
@@ -413,6 +493,8 @@ enum WOp {
     SetThreshold { t: u32, by: By },
     Uninstall { by: By },
     Enforce { mask: u8, by: By },
+    /// see `IDLE`: threshold, weights and every subset's verdict after a long time without calls
+    IdleProbe,
 }
 
 #[derive(Clone, Debug, PartialEq, Eq, Hash)]
@@ -481,7 +563,24 @@ impl Weighted {
             WOp::Enforce { mask, by } => {
                 call_signed(e, &i.c, "enforce", self.enf_args(i, *mask), &signers_of(*by, &i.acct, &i.other)).is_ok()
             }
+            // not a call
+            WOp::IdleProbe => false,
         }
+    }
+
+    /// The idle probe on a throw-away copy of the state on which `IDLE` ledgers have passed:
+    /// nothing of this policy is time-dependent, so get_threshold / get_signer_weights still agree
+    /// with the model and every authenticated subset is accepted exactly when the policy is
+    /// installed and the subset's weight reaches the threshold.
+    fn idle_check(&self, i: &WInst, m: &Option<WCfg>, cx: &mut StepCtx<Self>) -> Result<(), Violation> {
+        self.lockstep(i, m, cx).map_err(idle_viol)?;
+        for mask in 0..8u8 {
+            let expect = m.as_ref().map(|c| c.sum(mask) >= c.t as u64).unwrap_or(false);
+            idle_enforce(&i.e, &i.c, self.enf_args(i, mask), &i.acct, expect, &format!("the authenticated subset {:#05b} under configuration {:?}", mask, m))?;
+        }
+        cx.stats.count("idle-probes", 1);
+        cx.stats.count("getter-comparisons-after-long-idle", 2 + 16);
+        Ok(())
     }
 
     fn lockstep(&self, i: &WInst, m: &Option<WCfg>, cx: &mut StepCtx<Self>) -> Result<(), Violation> {
@@ -575,11 +674,13 @@ impl World for Weighted {
                 v.push(WOp::Enforce { mask, by });
             }
         }
+        v.push(WOp::IdleProbe);
         v
     }
 
     fn kind(&self, op: &WOp) -> String {
         match op {
+            WOp::IdleProbe => "idle-probe".into(),
             WOp::Install { w, t, by } if *by == By::Acct => {
                 let total: u64 = w.iter().map(|x| x.unwrap_or(0) as u64).sum();
                 if *t == 0 || (*t as u64) > total {
@@ -608,7 +709,14 @@ impl World for Weighted {
     }
 
     fn step(&self, i: &mut WInst, m: &mut Self::Model, op: &WOp, cx: &mut StepCtx<Self>) -> Result<bool, Violation> {
+        if matches!(op, WOp::IdleProbe) {
+            let copy = cx.rebuild();
+            envx::advance(&copy.e, IDLE);
+            self.idle_check(&copy, m, cx)?;
+            return Ok(false);
+        }
         let by = match op {
+            WOp::IdleProbe => unreachable!(),
             WOp::Install { by, .. } | WOp::SetWeight { by, .. } | WOp::SetThreshold { by, .. } | WOp::Uninstall { by } | WOp::Enforce { by, .. } => *by,
         };
         if let WOp::Enforce { mask, .. } = op {
@@ -671,7 +779,7 @@ impl World for Weighted {
                 m.as_mut().unwrap().t = *t;
             }
             WOp::Uninstall { .. } => *m = None,
-            WOp::Enforce { .. } => unreachable!(),
+            WOp::Enforce { .. } | WOp::IdleProbe => unreachable!(),
         }
         if let Some(c) = m.as_ref() {
             ensure!(
@@ -742,6 +850,9 @@ enum POp {
     Malformed(Bad),
     /// leaf: a state-changing entry point signed by somebody else / nobody
     Unsigned(Target, By),
+    /// see `IDLE`: the installed limit / period and the availability of the WHOLE limit after a
+    /// long time without calls
+    IdleProbe,
 }
 
 #[derive(Clone, Debug)]
@@ -896,7 +1007,54 @@ impl Spend {
                     }
                 }
             }
+            // not a call
+            POp::IdleProbe => false,
         }
+    }
+
+    /// The idle probe on a throw-away copy of the state on which `IDLE` ledgers have passed
+    /// (`m` = the model at the old ledger). Evaluated AT THE NEW LEDGER: the installed limit and
+    /// period are unchanged (they are not time-dependent); every recorded spend is older than the
+    /// period (IDLE > every period of the alphabet), so the window is empty and the whole limit
+    /// is available again: a transfer of exactly the limit is accepted (also from the 999 /
+    /// 1000-entry histories: all their entries have left the window), a transfer of limit+1 is
+    /// refused. The stored history itself (pruned lazily) is not compared.
+    fn idle_check(&self, i: &PInst, m: &PModel, cx: &mut StepCtx<Self>) -> Result<(), Violation> {
+        ensure!((m.period as u64) < IDLE as u64, "harness", "period {} is not shorter than the idle period", m.period);
+        let d = self.data(i);
+        ensure!(
+            d.is_some(),
+            "state-survives-idle",
+            "after {} ledgers without any call get_spending_limit_data fails: the installed policy (limit {}, period {}) is gone",
+            IDLE,
+            m.limit,
+            m.period
+        );
+        let d = d.unwrap();
+        ensure!(
+            d.spending_limit == m.limit && d.period_ledgers == m.period,
+            "state-survives-idle",
+            "after {} ledgers without any call get_spending_limit_data reports limit {} period {}, installed / last set: {} / {}",
+            IDLE,
+            d.spending_limit,
+            d.period_ledgers,
+            m.limit,
+            m.period
+        );
+        if let Some(over) = m.limit.checked_add(1) {
+            idle_enforce(&i.e, &i.c, self.spend_args(i, over), &i.acct, false, &format!("a transfer of {} (limit {} + 1, window empty)", over, m.limit))?;
+        }
+        idle_enforce(
+            &i.e,
+            &i.c,
+            self.spend_args(i, m.limit),
+            &i.acct,
+            true,
+            &format!("a transfer of the whole limit {} (every recorded spend {} is older than the period {})", m.limit, m.show(), m.period),
+        )?;
+        cx.stats.count("idle-probes", 1);
+        cx.stats.count("getter-comparisons-after-long-idle", 5);
+        Ok(())
     }
 
     /// Installed policy, optionally with a bulk history of `a` spends of 1 at ledger `start` and
@@ -1011,6 +1169,7 @@ impl World for Spend {
                 }
             }
         }
+        v.push(POp::IdleProbe);
         v
     }
 
@@ -1021,6 +1180,7 @@ impl World for Spend {
             POp::Advance(_) => "advance".into(),
             POp::Malformed(b) => format!("enforce.{:?}", b),
             POp::Unsigned(t, _) => format!("unauthorized.{:?}", t),
+            POp::IdleProbe => "idle-probe".into(),
         }
     }
 
@@ -1038,6 +1198,12 @@ impl World for Spend {
 
     fn step(&self, i: &mut PInst, m: &mut PModel, op: &POp, cx: &mut StepCtx<Self>) -> Result<bool, Violation> {
         match op {
+            POp::IdleProbe => {
+                let copy = cx.rebuild();
+                envx::advance(&copy.e, IDLE);
+                self.idle_check(&copy, m, cx)?;
+                Ok(false)
+            }
             POp::Spend(a) => {
                 let (can, ok) = can_then_enforce(&i.e, &i.c, self.spend_args(i, *a), &[i.acct.clone()], cx.stats)?;
                 ensure!(
@@ -1160,6 +1326,9 @@ enum BOp {
     /// __check_auth with these transfer contexts (one batch)
     Batch(Vec<i128>),
     Advance(u32),
+    /// see `IDLE`: the account's rule, signer and policy and the policy's limit after a long time
+    /// without calls
+    IdleProbe,
 }
 
 struct Batch {
@@ -1199,6 +1368,8 @@ impl Batch {
                 envx::advance(e, *k);
                 true
             }
+            // not a call
+            BOp::IdleProbe => false,
         }
     }
 }
@@ -1239,6 +1410,7 @@ impl World for Batch {
         v.push(BOp::Batch(vec![4, 4, 4]));
         v.push(BOp::Batch(vec![3, 3, 4]));
         v.push(BOp::Advance(1));
+        v.push(BOp::IdleProbe);
         v
     }
 
@@ -1246,6 +1418,7 @@ impl World for Batch {
         match op {
             BOp::Batch(v) => format!("check_auth.batch-of-{}", v.len()),
             BOp::Advance(_) => "advance".into(),
+            BOp::IdleProbe => "idle-probe".into(),
         }
     }
 
@@ -1258,8 +1431,33 @@ impl World for Batch {
     }
 
     fn step(&self, i: &mut BInst, m: &mut PModel, op: &BOp, cx: &mut StepCtx<Self>) -> Result<bool, Violation> {
+        if matches!(op, BOp::IdleProbe) {
+            // at the new ledger the window is empty: the account (default rule, its signer, the
+            // attached policy) and the policy's limit are what they were iff one transfer of
+            // limit+1 is refused and one transfer of exactly the limit is authorized
+            let copy = cx.rebuild();
+            envx::advance(&copy.e, IDLE);
+            for (a, expect) in [(m.limit + 1, false), (m.limit, true)] {
+                let ok = self.exec(&copy, &BOp::Batch(vec![a]));
+                ensure!(
+                    ok == expect,
+                    "state-survives-idle",
+                    "after {} ledgers without any call __check_auth of one transfer of {} {} (limit {}, period {}, every recorded spend {} is older than the period)",
+                    IDLE,
+                    a,
+                    if ok { "succeeds" } else { "fails" },
+                    m.limit,
+                    m.period,
+                    m.show()
+                );
+            }
+            cx.stats.count("idle-probes", 1);
+            cx.stats.count("getter-comparisons-after-long-idle", 2);
+            return Ok(false);
+        }
         let ok = self.exec(i, op);
         match op {
+            BOp::IdleProbe => unreachable!(),
             BOp::Advance(k) => {
                 m.now += *k;
                 m.prune();
@@ -1329,7 +1527,7 @@ fn main() {
     main_with(
         "C14",
         "model_checking",
-        "level-BFS on the real policy contracts under enforcing authorization. simple-threshold (example contract): 3 tenants (account, rule id), rules with 0..=4 signers, install/set_threshold with thresholds 0..=5, uninstall, can_enforce+enforce for every authenticated subset, each call signed by the account / another account / nobody; weighted-threshold (wrapper over the library functions): 3 signers, weights {absent,0,1,2,u32::MAX-1,u32::MAX}, thresholds {0,1,2,3,u32::MAX}, install (all 1080 configurations), set_signer_weight, set_threshold, uninstall, every subset, model sums in u64; spending-limit (example contract): limit {5,10} x period {1,2,3} x start ledger {1,100}, spend(a in {0,1,4,5,6,10,11}) = can_enforce+enforce of a transfer context, set_spending_limit {3,10}, Advance(1), leaf probes (other function, missing / u64 / symbol amount, contract creation, no signer, uninstalled rule / account, calls not signed by the account), seeds with 999 and 1000 live history entries; thorough: multisig account example, __check_auth batches of 1..3 transfers. States merged by canonical storage digest (+ ledger) + the model's live window; non-trivial = distinct state reached through >=1 accepted state-changing call",
+        "level-BFS on the real policy contracts under enforcing authorization. simple-threshold (example contract): 3 tenants (account, rule id), rules with 0..=4 signers, install/set_threshold with thresholds 0..=5, uninstall, can_enforce+enforce for every authenticated subset, each call signed by the account / another account / nobody; weighted-threshold (wrapper over the library functions): 3 signers, weights {absent,0,1,2,u32::MAX-1,u32::MAX}, thresholds {0,1,2,3,u32::MAX}, install (all 1080 configurations), set_signer_weight, set_threshold, uninstall, every subset, model sums in u64; spending-limit (example contract): limit {5,10} x period {1,2,3} x start ledger {1,100}, spend(a in {0,1,4,5,6,10,11}) = can_enforce+enforce of a transfer context, set_spending_limit {3,10}, Advance(1), leaf probes (other function, missing / u64 / symbol amount, contract creation, no signer, uninstalled rule / account, calls not signed by the account), seeds with 999 and 1000 live history entries; thorough: multisig account example, __check_auth batches of 1..3 transfers. Idle probe in every expanded state of every world: on a rebuilt copy 600000 ledgers pass without any call (beyond every temporary lifetime and the 518400-ledger TTL extensions of the policies and the smart account), then get_threshold / get_signer_weights / limit and period are unchanged, every tenant accepts exactly threshold and refuses threshold-1 signers (simple), every subset is accepted iff its weight reaches the threshold (weighted), and - evaluated at the new ledger, where every recorded spend has left the window - a transfer of limit+1 is refused and a transfer of the whole limit is accepted (spending, account batch). States merged by canonical storage digest (+ ledger) + the model's live window; non-trivial = distinct state reached through >=1 accepted state-changing call",
         |tier: Tier, r: &mut Runner| {
             // wall caps are safety nets (they sum to < 10 min in the thorough tier); on an idle
             // 16-core machine no world comes near its cap in the quick tier
@@ -1421,6 +1619,8 @@ fn main() {
                 }
                 rep.require(&must_ok, &must_refuse);
                 let mut counters = vec![
+                    "idle-probes",
+                    "getter-comparisons-after-long-idle",
                     "simple.accepted-exactly-at-threshold",
                     "simple.refused-one-below-threshold",
                     "weighted.accepted-exactly-at-threshold",
